@@ -123,7 +123,10 @@ func checkWalk(c WalkCase) (v ev.Verdict) {
 	start := &core.State{NodeName: c.Node, Bs: match.Bindings(jsongen.CopyMap(c.Bs))}
 	var w *core.Walked
 	var werr error
-	if p := trap(func() { w, werr = spec.Walk(ctx, start, copyMsgs(c.Messages), c.control(), nil) }); p != "" {
+	// the host's batch: the very slice that is later walked again in
+	// pieces (a host shows one batch to several machines, or retries)
+	given := copyMsgs(c.Messages)
+	if p := trap(func() { w, werr = spec.Walk(ctx, start, given, c.control(), nil) }); p != "" {
 		v.Skip, v.SkipReason = true, "panic(C07)"
 		return
 	}
@@ -297,7 +300,7 @@ func checkWalk(c WalkCase) (v ev.Verdict) {
 		comparable := true
 		bounds := append(append([]int{0}, c.Cuts...), len(c.Messages))
 		for bi := 0; bi+1 < len(bounds); bi++ {
-			batch := copyMsgs(c.Messages[bounds[bi]:bounds[bi+1]])
+			batch := given[bounds[bi]:bounds[bi+1]:bounds[bi+1]]
 			var wb *core.Walked
 			if p := trap(func() { wb, _ = spec.Walk(ctx, st, batch, &core.Control{Limit: c.Limit}, nil) }); p != "" || wb == nil {
 				v.Skip, v.SkipReason = true, "panic(C07)"
